@@ -500,6 +500,16 @@ def _under_fiber_test(ctx, f, node):
 def _check_form_body(ctx, f, mname, fiber_form, loop):
     body_src = " ".join(text(s) for s in loop.body).replace(" ", "")
     tgt = text(loop.target).replace(" ", "")
+    # the list the result's payloads are collected in: second argument of the
+    # constructor call that is returned
+    pl = "payloads"
+    for r in pat.returns(f):
+        v = r.value
+        if isinstance(v, ast.Name):
+            v = pat.single_def(ctx, f, v) or v
+        if isinstance(v, ast.Call) and len(v.args) >= 2 and isinstance(v.args[1], ast.Name):
+            pl = v.args[1].id
+    body_src = body_src.replace(pl + ".append(", "payloads.append(")
     ok = True
     why = ""
     if mname == "__add__" and fiber_form:
